@@ -501,7 +501,7 @@ Definition uprase_with (fd : bool -> table -> N -> rres) (mode : bool) (t : tabl
 
 Lemma uprase_gen_eq mode t k v g :
   uprase_gen c hash mode t k v g = uprase_with (cuckoo_fast_double c hash) mode t k v g.
-Proof. reflexivity. Qed.
+Proof. unfold uprase_gen, uprase_with. reflexivity. Qed.
 
 Lemma insert_with_eq fd t k v :
   insert_with c hash fd t k v =
@@ -665,7 +665,7 @@ Proof.
       as [t5 [Ef [G5 [L5 [Hhp5 [Hu Hp]]]]]].
     rewrite Ef in E. injection E as <- <-. unfold up_post. rewrite Hek in Hu, Hp.
     destruct Ev as [_ [Hh [L2 _]]].
-    split; [exact G5|]. split; [eapply lim_same_trans; eassumption|]. split; [lia|].
+    split; [exact G5|]. split; [exact (lim_same_trans _ _ _ L2 L5)|]. split; [lia|].
     exists (eval e). split.
     + left. split; [reflexivity|]. split; [|congruence]. apply Hh. exists (pindex pos), (pslot pos), e.
       repeat split; assumption.
@@ -689,7 +689,7 @@ Proof.
     rewrite Ef in E. injection E as <- <-. unfold up_post.
     destruct Ev as [_ [Hh [L2 Hb2]]].
     split; [exact G5|].
-    split; [eapply lim_same_trans; [exact L2|eapply lim_same_trans; eassumption]|].
+    split; [exact (lim_same_trans _ _ _ L2 (lim_same_trans _ _ _ L3 L5))|].
     split; [lia|]. exists v. split; [right; split; [reflexivity|split; [exact Hk|reflexivity]]|].
     split; [reflexivity|]. split; [|exact Hp].
     intros k' v'. rewrite (Hu k' v'), (Hh3 k' v'), (Hh k' v'). split.
